@@ -147,6 +147,44 @@ def run(ctx):
                     ctx.counterexample('glob.escape(%r, unix=False) = %r also matches %r under %s' % (s, e, n, corr.flag_names(fv)),
                                        {'string': s, 'escaped': e, 'other': n, 'flags': corr.flag_names(fv)})
                     break
+    # Windows rules, bounded-exhaustive: every string over {a, x, ., \, /, *, ?} up to the tier length that does not start with
+    # two separators (no UNC shape) - `\` and `/` are both separators, case is folded, NODOTDIR may be on
+    import re as _rw
+    def wcanon(t, pathmode):
+        t = t.lower().replace('\\', '/')
+        if pathmode:
+            t = _rw.sub('/+', '/', t)
+            t = t.rstrip('/') or t[:1]
+        return t
+    wstrs = [w for w in strings_upto('ax.\\/*?', 4 if ctx.quick else 5) if w and not _rw.match(r'[\\/]{2}', w)]
+    for w in wstrs:
+        for mode in ('fnmatch', 'glob'):
+            api = Fm if mode == 'fnmatch' else Gm
+            fv = api.FORCEWIN
+            for x in ((Fm.EXTMATCH, Fm.DOTMATCH, Fm.BRACE, Fm.SPLIT) if mode == 'fnmatch' else (Gm.EXTGLOB, Gm.DOTGLOB, Gm.NODOTDIR, Gm.GLOBSTAR, Gm.BRACE, Gm.SPLIT)):
+                if rng.random() < 0.4:
+                    fv |= x
+            e = Fm.escape(w) if mode == 'fnmatch' else Gm.escape(w, unix=False)
+            mt = (lambda n_, p_: Fm.fnmatch(n_, p_, flags=fv)) if mode == 'fnmatch' else (lambda n_, p_: Gm.globmatch(n_, p_, flags=fv))
+            evals += 1
+            if any(c in w for c in '*?\\'):
+                nontriv.add(w)
+            try:
+                ok = mt(w, e)
+            except Exception as ex:
+                ctx.counterexample('%s(%r, escape(%r)=%r, %s) raised %s' % (mode, w, w, e, corr.flag_names(fv), type(ex).__name__),
+                                   {'string': w, 'escaped': e, 'flags': corr.flag_names(fv), 'mode': mode})
+                continue
+            if not ok:
+                ctx.counterexample('%s(%r, escape(%r)=%r, %s) is False' % (mode, w, w, e, corr.flag_names(fv)),
+                                   {'string': w, 'escaped': e, 'flags': corr.flag_names(fv), 'mode': mode})
+                continue
+            for n_ in neighbours(w, rng, 6) + [w.replace('*', 'zzz'), w.replace('?', 'z'), w.replace('\\', '/'), w.replace('/', '\\')]:
+                evals += 1
+                if n_ and mt(n_, e) and wcanon(n_, mode == 'glob') != wcanon(w, mode == 'glob'):
+                    ctx.counterexample('%s: escape(%r)=%r also matches %r under %s' % (mode, w, e, n_, corr.flag_names(fv)),
+                                       {'string': w, 'escaped': e, 'other': n_, 'flags': corr.flag_names(fv), 'mode': mode})
+                    break
     # device-namespace prefixes (`//?/`, `//./`, GLOBAL, UNC in any case): metacharacters inside the drive part are literal
     # for is_magic, for escape and for the matcher alike
     import re as _re
